@@ -2,6 +2,7 @@
 
 from __future__ import annotations
 
+import os
 import warnings
 
 import numpy as np
@@ -1590,6 +1591,23 @@ class C16Oracle(Oracle):
 # ========================================================================================
 # C14: export o import = identity
 # ========================================================================================
+def _sweep_stale_homes(max_age=900.0):
+    """Project directories of walks whose worker process was stopped mid-walk (budget reached) are
+    not removed by the oracle: take away those older than any walk can be."""
+    import glob
+    import shutil
+    import tempfile
+    import time
+
+    now = time.time()
+    for d in glob.glob(os.path.join(tempfile.gettempdir(), "verif-c14-home-*")):
+        try:
+            if now - os.path.getmtime(d) > max_age:
+                shutil.rmtree(d, ignore_errors=True)
+        except OSError:
+            pass
+
+
 class C14Oracle(Oracle):
     extra_ops = {"roundtrip": 3}
 
@@ -1601,8 +1619,13 @@ class C14Oracle(Oracle):
             self._edits += 1
 
     def gen_extra(self, kind, rnd):
-        return {"op": "roundtrip", "fmt": rnd.choice(["csv", "geff", "internal", "geff", "csvdisplay"]),
-                "zarr": rnd.choice([2, 2, 3])}
+        fmt = rnd.choice(["csv", "geff", "internal", "geff", "csvdisplay", "internal"])
+        op = {"op": "roundtrip", "fmt": fmt, "zarr": rnd.choice([2, 2, 3])}
+        if fmt == "internal" and rnd.random() < 0.5:
+            # "save" rather than "save as": the same project directory is written again and again
+            # during the session (save_tracks rewrites every file of it), other saves go elsewhere
+            op["home"] = True
+        return op
 
     def finish(self):
         from .world import Outcome
@@ -1610,7 +1633,16 @@ class C14Oracle(Oracle):
         for fmt in ("csv", "geff", "internal"):
             if not self.w.trace or self.w.trace[-1].get("fmt") != fmt:
                 self.col.evaluation()
-                self.apply_extra({"op": "roundtrip", "fmt": fmt, "zarr": 2}, Outcome(ok=True))
+                op = {"op": "roundtrip", "fmt": fmt, "zarr": 2}
+                if fmt == "internal" and getattr(self, "_home", None) is not None:
+                    op["home"] = True  # the session ends with a save into its project directory
+                self.apply_extra(op, Outcome(ok=True))
+        self.close()
+
+    def close(self):
+        if getattr(self, "_home", None) is not None:
+            self._home.cleanup()
+            self._home = None
 
     # ---- helpers -----------------------------------------------------------------------
     def _positions_on_labels(self) -> bool:
@@ -1804,10 +1836,23 @@ class C14Oracle(Oracle):
         from funtracks.import_export import load_tracks, save_tracks
 
         tr = self.w.tracks
-        save_tracks(tr, tmp / "s")
+        target = tmp / "s"
+        if op.get("home"):
+            import tempfile
+            from pathlib import Path
+
+            if getattr(self, "_home", None) is None:
+                _sweep_stale_homes()
+                self._home = tempfile.TemporaryDirectory(prefix="verif-c14-home-")  # removed with the oracle
+                self._home_saves = 0
+            target = Path(self._home.name) / "project"
+            self._home_saves += 1
+            if self._home_saves > 1:
+                self.col.event("internal:resave_same_directory")
+        save_tracks(tr, target)
         with warnings.catch_warnings():
             warnings.simplefilter("ignore")
-            imp = load_tracks(tmp / "s", solution=True)
+            imp = load_tracks(target, solution=True)
         d = C.canon_diff(C.canon(tr), C.canon(imp), float_keys=set())
         if d:
             return ("state", d)
